@@ -69,13 +69,24 @@ func (r *salt) next() uint64 {
 }
 
 // bigBases are the bases of the generator's integers beyond TLC's range: value = base + off (off in 0..3).
-var bigBases = map[string]int64{"p53": 1 << 53, "n53": -(1 << 53) - 3, "p62": 1 << 62, "max": math.MaxInt64 - 3, "min": math.MinInt64}
+var bigBases = map[string]int64{"p31": 1<<31 - 2, "n31": -(1 << 31) - 1, "p32": 1<<32 - 3, "p53": 1 << 53, "n53": -(1 << 53) - 3, "p62": 1 << 62,
+	"max": math.MaxInt64 - 3, "min": math.MinInt64}
+
+// unsigned bases cross or lie beyond MaxInt64
+var ubigBases = map[string]uint64{"u63": 1<<63 - 1, "umax": math.MaxUint64 - 3}
 
 func absInt(m abs) (int64, uint64, bool) { // value, as uint64, isBigUnsigned
 	if v, ok := m["v"]; ok {
 		return num(v), 0, false
 	}
 	if b, ok := m["big"].(string); ok {
+		if ub, isU := ubigBases[b]; isU {
+			u := ub + uint64(num(m["off"]))
+			if u <= math.MaxInt64 {
+				return int64(u), 0, false
+			}
+			return 0, u, true
+		}
 		return bigBases[b] + num(m["off"]), 0, false
 	}
 	txt := decText(m["dec"])
@@ -99,11 +110,11 @@ func absFloat(m abs) float64 {
 }
 
 func absTime(m abs) time.Time {
-	if s, ok := m["sec"]; ok {
-		return time.Unix(1700000000+num(s), 0).UTC()
+	if nss, ok := m["ns"].(string); ok { // a logged projection (absval): nanoseconds since the epoch
+		ns, _ := strconv.ParseInt(nss, 10, 64)
+		return time.Unix(0, ns).UTC()
 	}
-	ns, _ := strconv.ParseInt(m["ns"].(string), 10, 64)
-	return time.Unix(0, ns).UTC()
+	return time.Unix(1700000000+num(m["sec"]), 0).UTC() // generator form: small second offsets
 }
 
 // widthInt picks one of the Go integer types that can hold i.
@@ -164,6 +175,9 @@ func toSimple(v any, r *salt) any {
 	case "int":
 		i, u, big := absInt(m)
 		if big {
+			if r != nil && r.next()%2 == 0 {
+				return uint(u)
+			}
 			return u
 		}
 		return widthInt(i, r)
